@@ -73,7 +73,7 @@ EXPLANATION = ("Theorems: csv_split(csv_join rows) = rows for all rows without l
 MAX_DISCARD = 1.0
 
 # the largest corpus files (3.7 MB, 130 000 votes) need ~30 s alone for parse/write/parse; more under load
-os.environ.setdefault("VERIF_CASE_TIMEOUT", "400")
+os.environ.setdefault("VERIF_CASE_TIMEOUT", "1800")
 SEED = int(os.environ.get("VERIF_SEED", "1"))
 REPO = os.environ.get("VERIF_REPO", "/repo")
 NCORPUS_QUICK = 40
@@ -819,8 +819,11 @@ def exotic(rng, rows, pheader_idx, prow_idx, vrow_idx, vcols, vt):
 # ----------------------------------------------------------------------------------------------
 # thorough tier: the parser model extracted to OCaml (never committed; built into /verif/gen)
 # ----------------------------------------------------------------------------------------------
-XPARSER_MAX_BYTES = 500 * 1024      # parse_loop appends ballots at the end of a list: quadratic in the votes
-XPARSER_TIMEOUT = 240
+XPARSER_MAX_BYTES = 64 * 1024 * 1024   # every corpus file (largest: 3.7 MB, ~110 s alone)
+XPARSER_TIMEOUT = 1500
+# the extracted code recurses as deep as the file is long (split_lines): every minor collection scans that stack,
+# so a large minor heap (4M words) is what keeps the run time linear
+XPARSER_ENV = {"OCAMLRUNPARAM": "s=4M"}
 EXTRACT_V = """From PB Require Import Model.PabulibM.
 Require Import ExtrOcamlBasic ExtrOcamlString.
 Extraction Blacklist String List.
@@ -953,7 +956,7 @@ def run_xparser(xbin, path):
     import subprocess
     try:
         r = subprocess.run(["bash", "-c", 'ulimit -s unlimited 2>/dev/null || ulimit -s 1000000; exec "$0" "$1"', xbin, path],
-                           capture_output=True, timeout=XPARSER_TIMEOUT)
+                           capture_output=True, timeout=XPARSER_TIMEOUT, env=dict(os.environ, **XPARSER_ENV))
     except subprocess.TimeoutExpired:
         return "timeout", None
     if r.returncode != 0:
